@@ -40,14 +40,15 @@ func init() {
 // c09KeySchema is a fixed schema whose type, field, argument and input-field names collide when a (container, member) pair
 // is flattened into one string, with or without a separator: (User, profile_id) / (User_profile, id), (User, profileid) /
 // (Userprofile, id), f(a_b) / f_a(b), In.a_b / In_a.b. The colliding members have different types.
-const c09KeySchema = `directive @d(a_b: Int) on FIELD
-directive @d_a(b: String) on FIELD
+const c09KeySchema = `directive @d(a_b: Int) on FIELD | QUERY | MUTATION | SUBSCRIPTION
+directive @d_a(b: String) on FIELD | SCHEMA | MUTATION
 input In { a_b: Int b: Boolean a: In_a }
 input In_a { b: String a_b: Float }
 type User { profile_id: Int profileid: String id: ID profile: User_profile other: Userprofile f(a_b: Int, in: In): Int f_a(b: String, in: In_a): String }
 type User_profile { id: String _id: Float user: User f(a_b: Float): Float }
 type Userprofile { id: Boolean user: User }
-type Query { user: User user_profile: User_profile userprofile: Userprofile }`
+type Query { user: User user_profile: User_profile userprofile: Userprofile set(a_b: Int): Int }
+schema @d_a { query: Query mutation: Query }`
 
 func c09KeyCases(x *core.Ctx, r *core.Rand, n int) {
 	sd, err := parser.ParseSchema(&ast.Source{Name: "keys.graphql", Input: c09KeySchema})
@@ -82,6 +83,16 @@ func c09KeyCases(x *core.Ctx, r *core.Rand, n int) {
 		dc := core.NewCase("pair", "schema", c09KeySchema, "doc", b.String(), "expect", "valid")
 		x.Do(dc, func() { c09Check(x, dc) })
 		x.Count("deep_chain_documents")
+	}
+	// one type is root for queries AND mutations (the loader allows it): what is linked for a mutation is the mutation's
+	for _, doc := range []string{
+		"mutation M @d(a_b: 1) @d_a(b: \"x\") { set(a_b: 2) user { id } ... on Query { plain: set } ...F } fragment F on Query { user_profile { id } }",
+		"query Q @d { user { id } } mutation M @d_a { set }",
+		"mutation ($v: Int) @d(a_b: $v) { a: set(a_b: $v) @d(a_b: $v) }",
+	} {
+		mc := core.NewCase("pair", "schema", c09KeySchema, "doc", doc, "expect", "valid")
+		x.Do(mc, func() { c09Check(x, mc) })
+		x.Count("shared_root_documents")
 	}
 	for j := 0; j < n; j++ {
 		g := dgen.New(r, mg, &dgen.Opts{MaxDepth: 2 + r.Intn(3), MaxOps: 1 + r.Intn(2), DeepValues: j%2 == 0})
@@ -445,6 +456,12 @@ func c09Links(x *core.Ctx, schema *ast.Schema, doc *ast.QueryDocument, tag strin
 					}
 				}
 			}
+		}
+	}
+	// the parent of a root selection is THE definition of that type: the one registered under its name
+	for opn, rd := range map[string]*ast.Definition{"query": schema.Query, "mutation": schema.Mutation, "subscription": schema.Subscription} {
+		if rd != nil && schema.Types[rd.Name] != rd {
+			l.bad("Schema.root("+opn+")", "not-the-registered-definition", fmt.Sprintf("%s root %s (%p)", opn, rd.Name, rd), fmt.Sprintf("Types[%s] (%p)", rd.Name, schema.Types[rd.Name]))
 		}
 	}
 	for _, op := range doc.Operations {
